@@ -9,7 +9,7 @@
 (* there is none the node is dropped from the line.                          *)
 (*                                                                           *)
 (* TLC enumerates parameter sets (integer and string values, default and     *)
-(* custom name templates, padded widths, non-contiguous values) x line       *)
+(* custom name templates, padded widths, non-contiguous and unsorted values) x line       *)
 (* shapes x parameter groups (every ordered selection of <= 2 parameters,    *)
 (* each plain / fixed value / offset) and computes the expected set of       *)
 (* instances; the harness compares with GraphExpander.expand (as a set),     *)
@@ -29,6 +29,8 @@ ParamSet(id) ==
                         Par("p", "str", <<"cat", "dog">>, "_%(p)s", "_", 0) >>
     [] id = "iq"  -> << Par("i", "int", <<8, 9, 10>>, "_i%(i)02d", "_i", 2),            \* padded to two digits
                         Par("q", "int", <<1, 3>>, "_Q%(q)s", "_Q", 1) >>                \* custom template, gaps
+    [] id = "rs"  -> << Par("r", "int", <<40, 12, 4>>, "_r%(r)02d", "_r", 2),           \* listed in processing order, not sorted:
+                        Par("s", "int", <<3, 1>>, "_s%(s)01d", "_s", 1) >>               \* "<r-1>" is the previous value *in the list*
     [] id = "mpq" -> << Par("m", "int", <<1, 3, 5>>, "_m%(m)01d", "_m", 1),
                         Par("p", "str", <<"a", "b", "c">>, "_%(p)s", "_", 0),
                         Par("q", "int", <<0, 1>>, "_q%(q)01d", "_q", 1) >>
@@ -117,8 +119,8 @@ Init == \E id \in SetIds : LET ps == ParamSet(id) IN
 Next == UNCHANGED vars
 Spec == Init /\ [][Next]_vars
 
-QuickSets == {"mp", "iq"}
-FullSets == {"mp", "iq", "mpq"}
+QuickSets == {"mp", "iq", "rs"}
+FullSets == {"mp", "iq", "rs", "mpq"}
 
 \* sanity of the oracle: never more instances than combinations; exactly as many when nothing is dropped or merged
 AtMostProduct == Cardinality(expected) <= ninst + 1
